@@ -18,6 +18,7 @@ EXPLANATION = (
     "variables by their own V<id> name (no copy at closure creation), so closures of one activation share them."
     ' (IRP-order guarded arms) a call is materialised by every emitter arm, guarded ones included.'
     ' (IRP-guarded) no guarded arm of the lowering gives a construct a second lowering (a self tail call turned into parameter assignments and a jump).'
+    ' (IRP-list) a declaration stays in the function literal it was emitted in.'
 )
 UNDECIDED = "run-time behaviour of preamble.lua helpers beyond GLOBAL-LEAK (a global temporary of a higher-order helper must not be held across a callback)."
 
